@@ -45,6 +45,8 @@ SPECROW = 'SpecRow'
 FILE = 'File'        # a binary file object being read: the bytes not yet consumed
 MSG = 'TMsg'         # a message in a track as far as tracks.py / write_track look at it
 OPT_INT = 'OptInt'    # None or an int (running_status_byte)
+INFILE = 'PyFile'     # a binary file being read: unread bytes and position (tell())
+EXTMSG = 'M'          # a message object built by code outside the translated fragment (passed in as `ext`)
 
 
 class Rec:
@@ -70,7 +72,13 @@ def lty(t):
         return '(List Int)'
     if t == OPT_INT:
         return '(Option Int)'
+    if t == INFILE:
+        return 'PyFile'
     return t
+
+
+def is_file(t):
+    return t in (FILE, INFILE)
 
 
 ERRS = {'ValueError', 'TypeError', 'AttributeError', 'LookupError', 'IndexError', 'KeyError',
@@ -220,6 +228,20 @@ class FnTranslator:
             if isinstance(e.op, ast.Invert) and ta == INT:
                 return f'(inv {a})', INT
             raise Untranslatable('unary')
+        if isinstance(e, ast.BoolOp) and isinstance(e.op, ast.And) and len(e.values) == 2 and isinstance(e.values[0], ast.Name) \
+                and isinstance(e.values[1], ast.Compare) and len(e.values[1].ops) == 1 and isinstance(e.values[1].ops[0], ast.Eq) \
+                and isinstance(e.values[1].left, ast.Subscript) and isinstance(e.values[1].left.value, ast.Name) \
+                and e.values[1].left.value.id == e.values[0].id:
+            # `xs and xs[0] == k` / `xs and xs[-1] == k`: the subscript is only evaluated on a non-empty list
+            xs, xt = self.expr(e.values[0])
+            k, kt = self.expr(e.values[1].comparators[0])
+            ix = e.values[1].left.slice
+            if xt == LINT and kt == INT:
+                if isinstance(ix, ast.Constant) and ix.value == 0:
+                    return f'(List.head? {xs} == some {k})', BOOL
+                if isinstance(ix, ast.UnaryOp) and isinstance(ix.op, ast.USub) and isinstance(ix.operand, ast.Constant) and ix.operand.value == 1:
+                    return f'(List.getLast? {xs} == some {k})', BOOL
+            raise Untranslatable('guarded subscript form')
         if isinstance(e, ast.BoolOp):
             parts = [self.cond(v) for v in e.values]
             op = ' && ' if isinstance(e.op, ast.And) else ' || '
@@ -252,7 +274,9 @@ class FnTranslator:
                     continue
                 if opn in ('Is', 'IsNot') and isinstance(rhs, ast.Constant) and rhs.value is None:
                     # the declared type of the parameter says whether it is None
-                    if pt in (FILE, INT, LINT, MSG) or isinstance(pt, tuple):
+                    if pt == OPT_INT:
+                        out.append(f'({prev} == none)' if opn == 'Is' else f'({prev} != none)')
+                    elif pt in (FILE, INFILE, INT, LINT, MSG) or isinstance(pt, tuple):
                         out.append('false' if opn == 'Is' else 'true')
                     elif pt == NONE:
                         out.append('true' if opn == 'Is' else 'false')
@@ -356,6 +380,17 @@ class FnTranslator:
                 if tt != INT:
                     raise Untranslatable('time of the new end_of_track')
                 return f'({{ id := 0, eot := true, time := {tv}, isMeta := true, bytes := .ok [255, 47, 0] }} : TMsg)', MSG
+            if n == 'MidiTrack' and not e.args and not e.keywords:
+                return '[]', LINT          # the element type comes from the unit's local_types
+            if n == 'Message' and getattr(self.unit, 'ext', False) and len(e.args) == 1 and isinstance(e.args[0], ast.Constant) \
+                    and e.args[0].value == 'sysex' and sorted(k.arg for k in e.keywords) == ['data', 'time']:
+                kw = {k.arg: self.expr(k.value) for k in e.keywords}
+                if kw['data'][1] == LINT and kw['time'][1] == INT:
+                    return f'(← ext.mkSysex {kw["data"][0]} {kw["time"][0]})', EXTMSG
+            if n == 'build_meta_message' and getattr(self.unit, 'ext', False) and len(e.args) == 3 and not e.keywords:
+                xs = [self.expr(a) for a in e.args]
+                if [t for _, t in xs] == [INT, LINT, INT]:
+                    return '(← ext.buildMeta %s)' % ' '.join(x for x, _ in xs), EXTMSG
             if n == 'MidiTrack' and len(e.args) == 1 and not e.keywords:
                 a, t = self.expr(e.args[0])
                 if t == LIST(MSG):
@@ -379,6 +414,21 @@ class FnTranslator:
                 a, t = self.expr(f.value)
                 if t == INT:
                     return f'(bitLength {a})', INT
+            if f.attr == 'tell' and not e.args and isinstance(f.value, ast.Name) and self.env.get(f.value.id, (None, None))[1] == INFILE:
+                return f'(tell {f.value.id})', INT
+            if f.attr == 'unpack' and isinstance(f.value, ast.Name) and f.value.id == 'struct' and len(e.args) == 2 \
+                    and isinstance(e.args[0], ast.Constant):
+                a, t = self.expr(e.args[1])
+                if t == LINT and e.args[0].value == '>4sL':
+                    return f'(← unpack4sL {a})', ('Tuple', [LINT, INT])
+                if t == LINT and e.args[0].value == '>hhh':
+                    return f'(← unpackHHH {a})', ('Tuple', [INT, INT, INT])
+            if f.attr == 'from_bytes' and isinstance(f.value, ast.Name) and f.value.id == 'Message' and len(e.args) == 1 \
+                    and [k.arg for k in e.keywords] == ['time'] and getattr(self.unit, 'ext', False):
+                a, t = self.expr(e.args[0])
+                tv, tt = self.expr(e.keywords[0].value)
+                if t == LINT and tt == INT:
+                    return f'(← ext.fromBytes {a} {tv})', EXTMSG
             if f.attr == 'bytes' and not e.args and not e.keywords:
                 a, t = self.expr(f.value)
                 if t == MSG:
@@ -413,6 +463,58 @@ class FnTranslator:
             out.append(a)
         return ' '.join(out)
 
+    def lift(self, node, ind, out):
+        """Calls that consume from / report on a file, inside an expression: the call is made first (in evaluation
+        order), the file variable takes its new state, and the expression uses the value."""
+        tr = self
+
+        class L(ast.NodeTransformer):
+            def visit_ListComp(self, n):
+                # [read_byte(infile) for _ in range(size)]
+                if len(n.generators) == 1 and not n.generators[0].ifs and isinstance(n.elt, ast.Call) and \
+                        isinstance(n.elt.func, ast.Name) and n.elt.func.id == 'read_byte' and len(n.elt.args) == 1 and \
+                        isinstance(n.elt.args[0], ast.Name) and is_file(tr.env.get(n.elt.args[0].id, (None, None))[1]):
+                    it = n.generators[0].iter
+                    if isinstance(it, ast.Call) and isinstance(it.func, ast.Name) and it.func.id == 'range' and len(it.args) == 1:
+                        f = n.elt.args[0].id
+                        cnt, ct = tr.expr(it.args[0])
+                        if ct != INT:
+                            raise Untranslatable('range of ' + str(ct))
+                        return tr._tmp_call(f'readN {f} {cnt}', f, LINT, ind, out)
+                return n
+
+            def visit_Call(self, n):
+                n = self.generic_visit(n)
+                if isinstance(n.func, ast.Name):
+                    u = tr.tr.unit_by_pyname(tr.unit.file, n.func.id)
+                    if u is not None and any(is_file(t) for _, t in u.params) and u.ret not in (None, NONE):
+                        fi = [i for i, (_, t) in enumerate(u.params) if is_file(t)]
+                        if len(fi) != 1 or not isinstance(n.args[fi[0]], ast.Name):
+                            raise Untranslatable('file argument form')
+                        f = n.args[fi[0]].id
+                        args = [tr.expr(a)[0] for a in n.args]
+                        if any(k.arg in dict(u.params) for k in n.keywords):
+                            byname = {k.arg: tr.expr(k.value)[0] for k in n.keywords}
+                            names = [p for p, _ in u.params]
+                            args = args + [byname[p] for p in names[len(args):]]
+                        ext = 'ext ' if getattr(u, 'ext', False) else ''
+                        return tr._tmp_call(f'{u.lean_name} {ext}{" ".join(args)}', f, u.ret, ind, out)
+                if isinstance(n.func, ast.Attribute) and n.func.attr == 'read' and isinstance(n.func.value, ast.Name) and \
+                        tr.env.get(n.func.value.id, (None, None))[1] == INFILE and len(n.args) == 1:
+                    f = n.func.value.id
+                    cnt, ct = tr.expr(n.args[0])
+                    return tr._tmp_call(f'readUpTo {f} {cnt}', f, LINT, ind, out, pure=True)
+                return n
+        return L().visit(node) if node is not None else None
+
+    def _tmp_call(self, call, f, rt, ind, out, pure=False):
+        self.ntmp = getattr(self, 'ntmp', 0) + 1
+        tmp = f'r__{self.ntmp}'
+        out.append(f'{ind}let {tmp} {":=" if pure else "←"} {call}')
+        out.append(f'{ind}{f} := {tmp}.2')
+        self.env[tmp + '_v'] = (f'{tmp}.1', rt)
+        return ast.Name(id=tmp + '_v', ctx=ast.Load())
+
     def truth(self, a, t):
         if t == BOOL:
             return a
@@ -433,6 +535,8 @@ class FnTranslator:
             hint = getattr(self.unit, 'local_types', {}).get(n)
             if hint is not None and vt == LIST(INT) and val == '[]':
                 vt = hint          # an empty list literal: its element type is declared in the unit configuration
+            if vt == OPT_INT and n in self.env and self.env[n][1] == INT:
+                val, vt = f'(← optGet {val})', INT        # the code has excluded None on this path
             if hint == OPT_INT:
                 if vt == NONE:
                     val, vt = 'none', OPT_INT
@@ -491,7 +595,7 @@ class FnTranslator:
             name, rec = self.out_rec
             vals = [f'{name}_{k}' for k in rec.fields]
             return vals[0] if len(vals) == 1 else '(' + ', '.join(vals) + ')'
-        files = [p for p, t in self.unit.params if t == FILE]
+        files = [p for p, t in self.unit.params if is_file(t)]
         if e is None:
             v = '()'
         else:
@@ -505,7 +609,11 @@ class FnTranslator:
         if isinstance(s, ast.Expr):
             if isinstance(s.value, ast.Constant) and isinstance(s.value.value, str):
                 return []          # docstring
-            return self.call_stmt(s.value, ind)
+            pre = []
+            val = s.value
+            if isinstance(val, ast.Call) and isinstance(val.func, ast.Attribute) and val.func.attr in ('append', 'extend'):
+                val = ast.Call(func=val.func, args=[self.lift(a, ind, pre) for a in val.args], keywords=val.keywords)
+            return pre + self.call_stmt(val, ind)
         if isinstance(s, ast.Pass):
             return [f'{ind}pure ()']
         if isinstance(s, ast.Return):
@@ -513,7 +621,13 @@ class FnTranslator:
                 pre = self.call_stmt(s.value, ind, allow_value=True)
                 if pre is not None:
                     return pre + [f'{ind}return self']
-            return [f'{ind}return {self.ret_value(s.value)}']
+            pre = []
+            value = self.lift(s.value, ind, pre) if s.value is not None else None
+            return pre + [f'{ind}return {self.ret_value(value)}']
+        if isinstance(s, ast.Break):
+            if not getattr(self, 'loop_exit', None):
+                raise Untranslatable('break outside a while loop')
+            return [f'{ind}return {self.loop_exit[-1]}']
         if isinstance(s, ast.Raise):
             exc = s.exc
             n = None
@@ -529,7 +643,7 @@ class FnTranslator:
                 raise Untranslatable('multiple targets')
             if isinstance(s.value, ast.Call) and isinstance(s.value.func, ast.Name) and s.value.func.id == 'read_byte' \
                     and len(s.value.args) == 1 and isinstance(s.value.args[0], ast.Name) \
-                    and self.env.get(s.value.args[0].id, (None, None))[1] == FILE:
+                    and is_file(self.env.get(s.value.args[0].id, (None, None))[1]):
                 # byte = read_byte(infile): one byte off the front of the unread input, EOFError at its end
                 f = s.value.args[0].id
                 if f not in self.muts:
@@ -538,8 +652,20 @@ class FnTranslator:
                 self.assign_target(s.targets[0], 'r__.1', INT, ind, out)
                 out.append(f'{ind}{f} := r__.2')
                 return out
-            v, t = self.expr(s.value)
-            self.assign_target(s.targets[0], v, t, ind, out)
+            value = self.lift(s.value, ind, out)
+            v, t = self.expr(value)
+            tg = s.targets[0]
+            if isinstance(tg, ast.Tuple):
+                if not (isinstance(t, tuple) and t[0] == 'Tuple' and len(t[1]) == len(tg.elts)):
+                    raise Untranslatable('tuple assignment from ' + str(t))
+                self.ntmp = getattr(self, 'ntmp', 0) + 1
+                tmp = f't__{self.ntmp}'
+                out.append(f'{ind}let {tmp} := {v}')
+                for i, (el, et) in enumerate(zip(tg.elts, t[1])):
+                    proj = tmp + ''.join(['.2'] * i) + ('.1' if i < len(tg.elts) - 1 else '')
+                    self.assign_target(el, proj, et, ind, out)
+                return out
+            self.assign_target(tg, v, t, ind, out)
             return out
         if isinstance(s, ast.AugAssign):
             cur = ast.BinOp(left=self._load(s.target), op=s.op, right=s.value)
@@ -552,6 +678,13 @@ class FnTranslator:
                 return self.block(s.body, ind)          # the other branch cannot be reached with the declared types
             if c == 'false':
                 return self.block(s.orelse, ind) if s.orelse else [f'{ind}pure ()']
+            if getattr(self.unit, 'pure_if', False) and not s.orelse and len(s.body) == 1 and isinstance(s.body[0], ast.Assign) \
+                    and isinstance(s.body[0].targets[0], ast.Name) and s.body[0].targets[0].id in self.muts:
+                # `if c: x = e` with a pure `e`: a conditional value, no branching of the control flow
+                nm = s.body[0].targets[0].id
+                v, vt = self.expr(s.body[0].value)
+                if '←' not in v and '←' not in c and vt == self.env[nm][1]:
+                    return [f'{ind}{nm} := (if {c} then {v} else {nm})']
             out.append(f'{ind}if {c} then')
             out.extend(self.block(s.body, ind + '  '))
             if s.orelse:
@@ -579,10 +712,27 @@ class FnTranslator:
                        'IndexError': ['IndexError']}.get(hn)
             if classes is None:
                 raise Untranslatable('except ' + str(hn))
+            if len(s.body) == 1 and isinstance(s.body[0], ast.Assign) and isinstance(s.body[0].targets[0], ast.Name) \
+                    and len(h.body) == 1 and isinstance(h.body[0], ast.Raise):
+                # try: x = <expr>  except E: raise X   ->   the exception of <expr> is mapped, nothing else happens
+                exc = h.body[0].exc
+                xn = exc.func.id if isinstance(exc, ast.Call) and isinstance(exc.func, ast.Name) else (exc.id if isinstance(exc, ast.Name) else None)
+                if xn is None:
+                    raise Untranslatable('raise form')
+                xn = xn if xn in ERRS else 'Other'
+                v, vt = self.expr(s.body[0].value)
+                test = ' || '.join(f'e == Err.{c}' for c in classes)
+                self.assign_target(s.body[0].targets[0], f'(← mapErr (fun e => if {test} then Err.{xn} else e) (do return {v}))', vt, ind, out)
+                return out
             # variables first assigned inside the try body must exist before it
             for sub in s.body:
                 if isinstance(sub, ast.Assign) and isinstance(sub.targets[0], ast.Name) and sub.targets[0].id not in self.muts:
-                    raise Untranslatable('first assignment inside try')  # handled by callers that pre-declare
+                    # first assignment inside the try block: the variable has to exist outside it in Lean
+                    _v, _t = self.expr(sub.value)
+                    nm = sub.targets[0].id
+                    out.append(f'{ind}let mut {nm} : {lty(_t)} := default')
+                    self.muts.append(nm)
+                    self.env[nm] = (nm, _t)
             out.append(f'{ind}try')
             out.extend(self.block(s.body, ind + '  '))
             out.append(f'{ind}catch e =>')
@@ -743,8 +893,9 @@ class FnTranslator:
         if fuel is None:
             raise Untranslatable('while loop without a fuel bound in the unit configuration')
         for sub in ast.walk(ast.Module(body=s.body, type_ignores=[])):
-            if isinstance(sub, (ast.Break, ast.Continue)):
-                raise Untranslatable('break/continue in while')
+            if isinstance(sub, ast.Continue):
+                raise Untranslatable('continue in while')
+        has_break = any(isinstance(sub, ast.Break) for sub in ast.walk(ast.Module(body=s.body, type_ignores=[])))
         names = [n for n in self.assigned_names(s.body) if n in self.muts]
         has_self = self.unit.cls is not None
         state = (['self'] if has_self else []) + names
@@ -754,27 +905,32 @@ class FnTranslator:
         stypes = ([self.unit.self_type] if has_self else []) + [lty(self.env[n][1]) for n in names]
         # free variables of the loop that are not state: pass every other known local/param as an argument
         frees = [(n, self.env[n]) for n in self.env if n not in names and n != 'self'
-                 and not isinstance(self.env[n][1], Rec)]
+                 and not isinstance(self.env[n][1], Rec) and not n.startswith('r__') and n not in getattr(self.unit, 'consts', {})]
         for n in list(self.env):
             if isinstance(self.env[n][1], Rec):
                 for k, t in self.env[n][1].fields.items():
                     frees.append((f'{n}_{k}', (f'{n}_{k}', t)))
         fparams = ' '.join(f'({n} : {lty(t)})' for n, (_, t) in frees)
         fargs = ' '.join(n for n, _ in frees)
+        if getattr(self.unit, 'ext', False):
+            fparams = '{M : Type} [Inhabited M] (ext : ReaderExt M) ' + fparams
+            fargs = 'ext ' + fargs
         sparams = ' '.join(f'({n} : {t})' for n, t in zip(state, stypes))
         tup = state[0] if len(state) == 1 else '(' + ', '.join(state) + ')'
         tupty = stypes[0] if len(stypes) == 1 else '(' + ' × '.join(stypes) + ')'
         aux_name = f'{self.unit.lean_name}.{key}'
         rty = lty(self.unit.ret) if self.unit.ret not in (None, NONE) else 'Unit'
-        if any(t == FILE for _, t in self.unit.params):
-            rty = '(' + ' × '.join([rty] + ['(List Int)' for _, t in self.unit.params if t == FILE]) + ')'
+        if any(is_file(t) for _, t in self.unit.params):
+            rty = '(' + ' × '.join([rty] + [lty(t) for _, t in self.unit.params if is_file(t)]) + ')'
         if returns:
             resty = f'(Sum {rty} {tupty})'      # inl: the function returned; inr: the loop ended
         else:
             resty = tupty
         c = self.cond(s.test)
         saved_muts = list(self.muts)
-        body = self.block(s.body, '      ')
+        self.loop_exit = getattr(self, 'loop_exit', []) + [f'(Sum.inr {tup})' if returns else tup]
+        body = self.hoist_decls(self.block(s.body, '      '), '      ')
+        self.loop_exit.pop()
         self.muts = saved_muts
         lines = [f'def {aux_name} {fparams} : Nat → {" → ".join(stypes)} → Except Err {resty}']
         pat = ', '.join(state)
@@ -785,7 +941,7 @@ class FnTranslator:
             lines.append(f'    let mut {n} := {n}')
         lines.append(f'    if {c} then')
         if returns:
-            body = [b.replace('return ', 'return Sum.inl (') + (')' if 'return ' in b else '') for b in body]
+            body = [(b.replace('return ', 'return Sum.inl (') + ')') if ('return ' in b and 'return (Sum.inr' not in b) else b for b in body]
         lines.extend(body)
         lines.append(f'      {aux_name} {fargs} fuel {" ".join(state)}')
         lines.append(f'    else {done}')
@@ -793,7 +949,7 @@ class FnTranslator:
         out = []
         call = f'{aux_name} {fargs} ({fuel}) {" ".join(state)}'
         infinite = isinstance(s.test, ast.Constant) and s.test.value is True
-        if returns and infinite:
+        if returns and infinite and not has_break:
             out.append(f'{ind}match (← {call}) with')
             out.append(f'{ind}| Sum.inl r => return r')
             out.append(f'{ind}| Sum.inr _ => throw Err.Hang')
@@ -817,6 +973,27 @@ class FnTranslator:
                     proj = 'st' + ''.join(['.2'] * i) + ('.1' if i < len(state) - 1 else '')
                     out.append(f'{ind}{n} := {proj}')
         return out
+
+    @staticmethod
+    def hoist_decls(lines, base):
+        """Python variables live in the whole function: a variable first assigned inside a branch is declared (with a
+        default value that is never read) at the start of the enclosing body, and the branch assigns to it."""
+        import re as _re
+        seen, decls, out = set(), [], []
+        pat = _re.compile(r'^(\s*)let mut (\w+) : (.+?) := (.*)$')
+        for ln in lines:
+            m = pat.match(ln)
+            if m and len(m.group(1)) > len(base) and m.group(2) not in seen:
+                seen.add(m.group(2))
+                decls.append(f'{base}let mut {m.group(2)} : {m.group(3)} := default')
+                out.append(f'{m.group(1)}{m.group(2)} := {m.group(4)}')
+            elif m and len(m.group(1)) > len(base) and m.group(2) in seen:
+                out.append(f'{m.group(1)}{m.group(2)} := {m.group(4)}')
+            else:
+                if m:
+                    seen.add(m.group(2))
+                out.append(ln)
+        return decls + out
 
     def terminates(self, stmts):
         if not stmts:
@@ -846,6 +1023,8 @@ class FnTranslator:
         ndefaults = len(fn.args.defaults)
         required = pnames[:len(pnames) - ndefaults] if ndefaults else pnames
         for p in pnames:
+            if p in getattr(u, 'consts', {}):
+                continue
             if p not in decl:
                 if p in required:
                     raise Untranslatable(f'parameter {p} has no declared type')
@@ -861,13 +1040,17 @@ class FnTranslator:
                     self.out_rec = (p, t)
             else:
                 params.append(f'({p} : {lty(t)})')
+        for cname, cval in getattr(u, 'consts', {}).items():
+            self.env[cname] = (('true' if cval else 'false'), BOOL)
+        if getattr(u, 'ext', False):
+            params.insert(0, '{M : Type} [Inhabited M] (ext : ReaderExt M)')
         body = []
         if u.cls is not None:
             body.append('  let mut self := self')
             self.muts.append('self')
         assigned = self.assigned_names(fn.body)
         for p, t in u.params:
-            if not isinstance(t, Rec) and (p in assigned or t == FILE):
+            if not isinstance(t, Rec) and (p in assigned or is_file(t)):
                 body.append(f'  let mut {p} := {p}')
                 self.muts.append(p)
         if self.out_rec is not None:
@@ -882,7 +1065,7 @@ class FnTranslator:
             body.append('  let mut out__ : List TMsg := []')
             self.muts.append('out__')
             self.env['out__'] = ('out__', LIST(MSG))
-        body.extend(self.block(stmts, '  '))
+        body.extend(self.hoist_decls(self.block(stmts, '  '), '  '))
         if not self.terminates(stmts):
             # falling off the end returns None (the object state for methods)
             body.append(f'  return {self.ret_value(None)}')
@@ -893,8 +1076,8 @@ class FnTranslator:
             rty = ts[0] if len(ts) == 1 else '(' + ' × '.join(ts) + ')'
         else:
             rty = lty(u.ret) if u.ret not in (None,) else 'Unit'
-            if any(t == FILE for _, t in u.params):
-                rty = '(' + ' × '.join([rty] + ['(List Int)' for _, t in u.params if t == FILE]) + ')'
+            if any(is_file(t) for _, t in u.params):
+                rty = '(' + ' × '.join([rty] + [lty(t) for _, t in u.params if is_file(t)]) + ')'
         head = f'def {u.lean_name} {" ".join(params)} : Except Err {rty} := do'
         src = textwrap.indent(ast.unparse(fn), '  -- ')
         return '\n\n'.join(self.aux + [f'/- {u.file}: {("class " + u.cls + ", ") if u.cls else ""}{u.name}\n{src}\n-/\n' + head + '\n' + '\n'.join(body)])
@@ -1041,7 +1224,23 @@ def units():
     M = 'mido/midifiles/meta.py'
     U.append(Unit(M, 'encode_variable_int', [('value', INT)], LINT, fuel={'loop1': 'value.toNat'}))
     U.append(Unit(M, 'decode_variable_int', [('value', LINT)], INT))
-    U.append(Unit('mido/midifiles/midifiles.py', 'read_variable_int', [('infile', FILE)], INT, fuel={'loop1': 'infile.length + 1'}))
+    MFR = 'mido/midifiles/midifiles.py'
+    U.append(Unit(MFR, 'read_variable_int', [('infile', INFILE)], INT, fuel={'loop1': 'infile.rest.length + 1'}))
+    U.append(Unit(MFR, 'read_bytes', [('infile', INFILE), ('size', INT)], LINT))
+    U.append(Unit(MFR, 'read_chunk_header', [('infile', INFILE)], ('Tuple', [LINT, INT])))
+    U.append(Unit(MFR, 'read_file_header', [('infile', INFILE)], ('Tuple', [INT, INT, INT])))
+    for nm, ps in (('read_message', [('infile', INFILE), ('status_byte', INT), ('peek_data', LINT), ('delta', INT), ('clip', BOOL)]),
+                   ('read_sysex', [('infile', INFILE), ('delta', INT), ('clip', BOOL)]),
+                   ('read_meta_message', [('infile', INFILE), ('delta', INT)])):
+        u = Unit(MFR, nm, ps, EXTMSG)
+        u.ext = True
+        u.pure_if = True
+        U.append(u)
+    u = Unit(MFR, 'read_track', [('infile', INFILE), ('clip', BOOL)], LIST(EXTMSG), fuel={'loop1': 'infile.rest.length + 1'})
+    u.ext = True
+    u.consts = {'debug': False}
+    u.local_types = {'track': LIST(EXTMSG), 'last_status': OPT_INT}
+    U.append(u)
     U.append(Unit(M, 'check_int', [('value', INT), ('low', INT), ('high', INT)], NONE))
 
     TR = 'mido/midifiles/tracks.py'
